@@ -430,7 +430,8 @@ package plenccodec
 //@   ensures[C04,C05] err == nil ==> 0 <= n && n <= len(data)
 
 //@ func plenccodec.*MapCodec.readMapEntry
-//@   safety C04 C11
+//@   safety C04 C11 C10
+//@   stale k                                # k is scratch space from a pool: it may hold a previous entry's key
 //@   ensures[C04,C05] r1 == nil ==> 0 <= r0 && r0 <= len(data)
 
 //@ func plenccodec.*MapCodec.readTagAndLength
